@@ -21,6 +21,11 @@ pub fn run(cfg: &RunCfg) -> Ctx {
     let mut all = Ctx::new();
     #[cfg(feature = "full")]
     all.merge(par_cases(cfg, "wire", cfg.n(12_000, 16 * 25_000), || (), |_, rng, ctx, i| wire_case(rng, ctx, i)));
+    #[cfg(feature = "full")]
+    {
+        all.merge(par_cases(cfg, "h2", cfg.n(100, 16 * 300), || (), |_, rng, ctx, i| h2_case(rng, ctx, i)));
+        all.floor("h2.calls", 50);
+    }
     all.merge(par_cases(cfg, "accessors", cfg.n(25_000, 16 * 50_000), || (), |_, rng, ctx, _| accessor_case(rng, ctx)));
     for k in ["acc.bin_len_mod3.0", "acc.bin_len_mod3.1", "acc.bin_len_mod3.2", "acc.padded_peer_value", "acc.invalid_base64_value", "acc.repeated_key"] {
         all.floor(k, 10);
@@ -361,5 +366,85 @@ fn accessor_case(rng: &mut Rng, ctx: &mut Ctx) {
     }
     let _ = AsciiMetadataKey::from_static("x");
     ctx.fingerprint(format!("acc|n{}|bin{}|res{}|rep{}", entries.len().min(5), entries.iter().filter(|e| e.2).count().min(3), entries.iter().any(|e| RESERVED.contains(&e.0.as_str())) as u8, (keys.len() < entries.len()) as u8), !entries.is_empty());
+    ctx.sample(case_json);
+}
+
+/// The same tainted metadata through real HTTP/2 (HPACK, hyper's own header handling) over the
+/// in-memory pipe: observed at the handler and at the client API.
+#[cfg(feature = "full")]
+fn h2_case(rng: &mut Rng, ctx: &mut Ctx, idx: u64) {
+    use crate::props::c13::{run_scenario, PlannedCall, Scenario, Signal};
+    use crate::transport::PipeCfg;
+    let mut tag = 0u32;
+    let ncalls = rng.urange(1, 3);
+    let mut calls = Vec::new();
+    let mut specs = Vec::new();
+    let mut metas = Vec::new();
+    for c in 0..ncalls {
+        let shape = *rng.pick(&[Shape::Unary, Shape::ServerStream, Shape::Bidi, Shape::ClientStream]);
+        let mut req_meta = gen_meta(rng, 5, false);
+        taint(rng, &mut req_meta, &mut tag);
+        let mut init_md = gen_meta(rng, 4, false);
+        taint(rng, &mut init_md, &mut tag);
+        let fails = rng.bool();
+        let mut st = gen_status(rng);
+        taint(rng, &mut st.meta, &mut tag);
+        let streaming = matches!(shape, Shape::ServerStream | Shape::Bidi);
+        let script = Script {
+            initial_md: init_md.clone(),
+            msgs: (0..if streaming { rng.urange(0, 2) } else { 1 }).map(|i| Msg { data: vec![i as u8; 3], seq: i as u64, tag: String::new() }).collect(),
+            end: if fails { Some(st.clone()) } else { None },
+            fail_up_front: fails && streaming && rng.bool(),
+            ..Default::default()
+        };
+        let id = format!("h{}x{}", idx, c);
+        specs.push(CallSpec { id: id.clone(), shape, req_msgs: vec![Msg::default()], req_meta: req_meta.clone(), req_pend: vec![], req_gaps_ms: vec![], timeout: None });
+        calls.push(PlannedCall { conn: 0, start_ms: rng.below(5), shape, script: script.clone(), id });
+        metas.push((req_meta, init_md, st.meta.clone()));
+    }
+    let sc = Scenario {
+        conns: 1, lazy: vec![true], conn_start_ms: vec![0], calls, specs, signal: Signal::Never, keep_clients: false,
+        pipe_cfg: if rng.bool() { PipeCfg::plain() } else { PipeCfg::gen(rng) }, server_window: None, client_window: None, max_frame: None, seed: rng.u64(), server_timeout: None, endpoint_timeout: None,
+    };
+    let case_json = json!({"calls": sc.calls.iter().zip(&metas).map(|(c, m)| json!({"shape": format!("{:?}", c.shape), "request_meta": meta_json(&m.0), "initial_md": meta_json(&m.1), "status_meta": meta_json(&m.2), "fails": c.script.end.is_some()})).collect::<Vec<_>>()});
+    ctx.begin("h2", case_json.clone());
+    let out = run_scenario(&sc);
+    for (i, c) in sc.calls.iter().enumerate() {
+        ctx.count("h2.calls");
+        let Some(view) = &out.views[i] else {
+            ctx.violation("call-open", "call did not complete".into());
+            continue;
+        };
+        let log = &out.logs[i];
+        // handler side: non-reserved entries intact, no tag under a reserved name
+        if let Err(e) = multimap_includes(&log.req_meta, &spec_multimap(&strip_reserved(&metas[i].0))) {
+            ctx.violation("handler-metadata-differs", format!("[h2] {}", e));
+        }
+        for (k, vs) in &log.req_meta {
+            if RESERVED.contains(&k.as_str()) && vs.iter().any(|v| String::from_utf8_lossy(v).contains("USERVAL")) {
+                ctx.violation_class("reserved-header-forged", &format!("h2-request-{}", k), format!("[h2] the handler received user metadata under the reserved name {}", k));
+            }
+        }
+        // client side
+        let mut stripped = c.script.clone();
+        stripped.initial_md = strip_reserved(&metas[i].1);
+        if let Some(e) = stripped.end.as_mut() {
+            e.meta = strip_reserved(&e.meta);
+        }
+        for (d, what) in judge_call(c.shape, &stripped, view) {
+            ctx.violation(&format!("client-{}", d), format!("[h2] {}", what));
+        }
+        let mut seen: Vec<(&String, &Vec<Vec<u8>>)> = view.head_meta.iter().collect();
+        let status_meta = view.call_err.as_ref().or(match &view.end { Some(Err(s)) => Some(s), _ => None }).and_then(|s| s.meta.as_ref().ok());
+        if let Some(m) = status_meta {
+            seen.extend(m.iter());
+        }
+        for (k, vs) in seen {
+            if RESERVED.contains(&k.as_str()) && vs.iter().any(|v| String::from_utf8_lossy(v).contains("USERVAL")) {
+                ctx.violation_class("reserved-header-forged", &format!("h2-response-{}", k), format!("[h2] the client received user metadata under the reserved name {}", k));
+            }
+        }
+    }
+    ctx.fingerprint(format!("h2|calls{}|{}", ncalls, sc.calls.iter().map(|c| format!("{:?}{}", c.shape, c.script.end.is_some() as u8)).collect::<Vec<_>>().join(",")), true);
     ctx.sample(case_json);
 }
